@@ -175,7 +175,7 @@ pub enum StrClass {
 
 const UNI: &[&str] = &["é", "ß", "Ω", "д", "中", "語", "€", "\u{2028}", "😀", "𝔘", "\u{FEFF}", "ñ"];
 
-/// A logical GDS string: never ends in NUL at even length (GDSII cannot represent that: NUL is the pad byte)
+/// A logical GDS string: never ends in NUL at even length (GDSII cannot represent that: NUL is the pad byte); at odd length it may
 pub fn rand_string(rng: &mut Rng, maxlen: usize, class: StrClass) -> Vec<u8> {
     let target = match rng.below(10) {
         0 => 0,
@@ -194,8 +194,10 @@ pub fn rand_string(rng: &mut Rng, maxlen: usize, class: StrClass) -> Vec<u8> {
                 continue;
             }
         }
-        if class == StrClass::Mixed && r < 15 && v.len() + 1 < target {
-            v.push(0); // interior NUL
+        // NUL inside a string, or as its LAST character when that leaves the length odd: "ab\0" is stored as 61 62 00 + one pad byte and
+        // comes back whole (only at even length is a final NUL indistinguishable from the pad)
+        if class == StrClass::Mixed && r < 15 && (v.len() + 1 < target || target % 2 == 1) {
+            v.push(0);
             continue;
         }
         v.push(32 + rng.below(95) as u8);
